@@ -29,6 +29,17 @@ CHECKS = {
         text='Generated-input search over line lists x indenter configurations x repetition, compared line by line with '
              'a specification of the prefix; exploration.',
         note=TRUST_PY, design='C18'),
+    'C19': dict(
+        technique=PBT + 'the C17 reference flattener ("one // line per physical line") and a metamorphic relation over builds (vary only copyright/creator_info)',
+        text='Generated-input search over hostile comment text; rendering is checked line by line against a reference, '
+             'for idempotence and for non-mutation; exploration.',
+        note=TRUST_PY, design='C19'),
+    'C20': dict(
+        technique=PBT + 'an independent signature tokenizer (declaration vs definition vs description) plus g++ -fsyntax-only as oracle on generated compositions',
+        text='Generated-input search over all field combinations of Function/Constructor/Destructor and the container '
+             'blocks; declaration and definition are parsed back and compared; random semantically valid compositions '
+             'are compiled; exploration.',
+        note=TRUST_PY + '; g++ 12 -std=c++17', design='C20'),
 }
 
 NOT_YET = {
